@@ -31,6 +31,7 @@ FORBIDDEN = re.compile(r"\bsorry\b|\badmit\b|^\s*axiom\s|native_decide|bv_decide
                        r"\bunsafe\s|maxHeartbeats\s+0\b|\bopaque\s|@\[extern|\bpartial\s+def\b", re.M)
 
 HL, CB, DS, MO, RC = "src/common/hostlist.c", "src/pdsh/cbuf.c", "src/pdsh/dsh.c", "src/pdsh/mod.c", "src/pdsh/rcmd.c"
+OP, WC, PS, PC = "src/pdsh/opt.c", "src/pdsh/wcoll.c", "src/pdsh/pcp_server.c", "src/common/pipecmd.c"
 
 # (id, unit, file, function, description, old text, new text)      old must occur exactly once in the function
 MUTATIONS = [
@@ -60,6 +61,36 @@ MUTATIONS = [
     ("M21", "Rcmd", RC, "find_host", "inverted match", "strcmp (x->hostname, hostname) == 0", "strcmp (x->hostname, hostname) != 0"),
     ("M23", "Hostlist", HL, "host_prefix_end", ">= becomes >: index 0 never tested", "while (idx >= 0 && isdigit", "while (idx > 0 && isdigit"),
     ("M24", "Hostlist", HL, "host_prefix_end", "off by one start", "int idx = strlen(hostname) - 1;", "int idx = strlen(hostname);"),
+    ("M25", "Cbuf", CB, "cbuf_find_unread_line", "byte count of the last line off by one", "m = n;", "m = n - 1;"),
+    ("M26", "Cbuf", CB, "cbuf_find_unread_line", "|| becomes &&: scan does not stop at the line limit",
+     "if ((chars == 0) || (lines == 0)) {", "if ((chars == 0) && (lines == 0)) {"),
+    ("M27", "Cbuf", CB, "cbuf_find_unread_line", "all-or-none test dropped", "if (lines > 0) {\n        return(0);", "if (0) {\n        return(0);"),
+    # ---- round 2b: fragments (edited inside their enclosing function), switch, effects, strtol
+    ("M30", "Dsh", DS, "_wdog", "connecting slots tested against the COMMAND time-out", "case DSH_RCMD:\n                if (_thd_connect_timeout (&t[i]))", "case DSH_RCMD:\n                if (_thd_command_timeout (&t[i]))"),
+    ("M31", "Dsh", DS, "_wdog", "wrong signal", "pthread_kill(t[i].thread, SIGALRM);\n                break;\n            case DSH_READING:", "pthread_kill(t[i].thread, SIGTERM);\n                break;\n            case DSH_READING:"),
+    ("M32", "Dsh", DS, "_fwd_signal", "signals forwarded to connecting slots", "if (t[i].state == DSH_READING)", "if (t[i].state == DSH_RCMD)"),
+    ("M33", "Dsh", DS, "_cancel_pending_threads", "connecting slots no longer canceled", "if ((t[i].state == DSH_NEW) || (t[i].state == DSH_RCMD)) {", "if ((t[i].state == DSH_NEW)) {"),
+    ("M34", "Dsh", DS, "dsh", "-S: RC_FAILED replaces a larger code (finding D8 returns)", "&& rc < RC_FAILED)", "&& rc != RC_FAILED)"),
+    ("M35", "Dsh", DS, "dsh", "-S: canceled targets no longer count as failed", "(t[i].state == DSH_FAILED || t[i].state == DSH_CANCELED)", "(t[i].state == DSH_FAILED)"),
+    ("M36", "Dsh", DS, "_handle_sigint", "> becomes >=: a second ^C after exactly INTR_TIME no longer aborts", "time(NULL) - *last_intrp > INTR_TIME", "time(NULL) - *last_intrp >= INTR_TIME"),
+    ("M37", "Dsh", DS, "_handle_sigint", "batch mode no longer forwards SIGINT", "if (sigint_terminates) {\n        _fwd_signal(SIGINT);", "if (sigint_terminates) {"),
+    ("M38", "Dsh", DS, "_handle_sigtstp", "swapped branches", "raise (SIGSTOP);\n    else\n        _cancel_pending_threads ();", "_cancel_pending_threads ();\n    else\n        raise (SIGSTOP);"),
+    ("M39", "Dsh", DS, "_list_slowthreads", "connecting threads no longer listed", "case DSH_RCMD:\n            ttl = t[i].start", "case DSH_CANCELED + 7:\n            ttl = t[i].start"),
+    ("M40", "Mod", MO, "_mod_load_dynamic_modules", "group-writable tested instead of world-writable", "if (st.st_mode & S_IWOTH) {", "if (st.st_mode & S_IWGRP) {"),
+    ("M41", "Mod", MO, "_mod_load_dynamic_modules", "owner of the pdsh binary no longer trusted", "&& (st.st_uid != pdsh_owner)) {", "&& (st.st_uid != pdsh_owner || 1)) {"),
+    ("M42", "Mod", MO, "_mod_load_dynamic_modules", "directories accepted as modules", "if (!S_ISREG(st.st_mode))", "if (!S_ISREG(st.st_mode) && !S_ISDIR(st.st_mode))"),
+    ("M43", "Hostlist", HL, "_parse_single_range", "> becomes >=: a single host `n5` is refused", "if (range->lo > range->hi)", "if (range->lo >= range->hi)"),
+    ("M44", "Hostlist", HL, "_parse_single_range", "size test off by one", "range->hi - range->lo >= MAX_RANGE", "range->hi - range->lo > MAX_RANGE"),
+    ("M45", "Hostlist", HL, "_parse_single_range", "ULONG_MAX accepted again (finding D15 returns)", "range->hi == ULONG_MAX || ", ""),
+    ("M46", "Hostlist", HL, "hostrange_hn_within", "upper bound not tested", "&& (hn->num <= hr->hi)\n", "\n"),
+    ("M47", "Opt", OP, "string_to_int", "trailing garbage accepted", "(p == val) || (*p != '\\0') ||", "(p == val) ||"),
+    ("M48", "Opt", OP, "string_to_int", "range test dropped: silent truncation (finding D5 returns)", "|| (n < INT_MIN) || (n > INT_MAX))", ")"),
+    ("M49", "Opt", OP, "string_to_int", "empty text accepted as 0", "if (errno || (p == val) ||", "if (errno ||"),
+    ("M50", "Wcoll", WC, "wcoll_ctx_read_stream", "piece length instead of newline (seeded C01-4 / C10-9)", "if (strchr (buf, '\\n') == NULL)", "if (strlen (buf) == LINEBUFSIZE - 1)"),
+    ("M51", "PcpServer", PS, "_sink", "names with a slash accepted (seeded C12-10)", "if (strchr (cp, '/') != NULL || strcmp (cp, \"..\") == 0)", "if (strcmp (cp, \"..\") == 0)"),
+    ("M52", "PcpServer", PS, "_sink", "`..` accepted", "|| strcmp (cp, \"..\") == 0)", "|| strcmp (cp, \".\") == 0)"),
+    ("M53", "PcpServer", PS, "_sink", "digit 8 accepted in a mode", "if (*cp < '0' || *cp > '7')", "if (*cp < '0' || *cp > '8')"),
+    ("M54", "PcpServer", PS, "_sink", "EOF no longer ends the transfer (seeded C12-3 / C12-5)", "if (j <= 0) {", "if (j < 0) {"),
     ("M22", "Hostlist", HL, "_zero_padded", "leaves the subset: calls printf", "int n = 1;", "int n = 1; printf(\"x\");"),
 ]
 
@@ -80,6 +111,21 @@ HARMLESS = [
     # equal prefixes imply equal `singlehost` bits, so || and && agree where the test is reached: found by the bridge itself
     ("H13", "Hostlist", HL, "hostrange_within_range", "|| -> && (equivalent after prefix_cmp == 0)", "h1->singlehost || h2->singlehost ? 0 : 1", "h1->singlehost && h2->singlehost ? 0 : 1"),
     ("H14", "Hostlist", HL, "host_prefix_end", "idx-- -> --idx", "idx--;", "--idx;"),
+    ("H15", "Cbuf", CB, "cbuf_find_unread_line", "++n -> n++", "++n;", "n++;"),
+    ("H16", "Cbuf", CB, "cbuf_find_unread_line", "a != b  <->  b != a", "while (i != cb->i_in) {", "while (cb->i_in != i) {"),
+    ("H20", "Dsh", DS, "_fwd_signal", "a == b  <->  b == a", "if (t[i].state == DSH_READING)", "if (DSH_READING == t[i].state)"),
+    ("H21", "Dsh", DS, "_cancel_pending_threads", "swapped operands of ||, ++n -> n++", "if ((t[i].state == DSH_NEW) || (t[i].state == DSH_RCMD)) {\n            t[i].state = DSH_CANCELED;\n            ++n;",
+     "if ((t[i].state == DSH_RCMD) || (t[i].state == DSH_NEW)) {\n            n++;\n            t[i].state = DSH_CANCELED;"),
+    ("H22", "Dsh", DS, "dsh", "a < b  <->  b > a", "&& rc < RC_FAILED)", "&& RC_FAILED > rc)"),
+    ("H23", "Dsh", DS, "_handle_sigtstp", "if/else -> negated if/else", "if (time (NULL) - last_intr > INTR_TIME)\n        raise (SIGSTOP);\n    else\n        _cancel_pending_threads ();",
+     "if (!(time (NULL) - last_intr > INTR_TIME))\n        _cancel_pending_threads ();\n    else\n        raise (SIGSTOP);"),
+    ("H24", "Mod", MO, "_mod_load_dynamic_modules", "reordered owner tests", "if (  (st.st_uid != 0) && (st.st_uid != getuid())\n           && (st.st_uid != pdsh_owner)) {",
+     "if (  (st.st_uid != pdsh_owner) && (st.st_uid != 0)\n           && (st.st_uid != getuid())) {"),
+    ("H25", "Hostlist", HL, "_parse_single_range", "a > b  <->  b < a", "if (range->lo > range->hi)", "if (range->hi < range->lo)"),
+    ("H26", "Opt", OP, "string_to_int", "reordered tests", "if (errno || (p == val) || (*p != '\\0') ||", "if ((p == val) || errno || (*p != '\\0') ||"),
+    ("H27", "Wcoll", WC, "wcoll_ctx_read_stream", "== NULL -> !", "if (strchr (buf, '\\n') == NULL)", "if (!strchr (buf, '\\n'))"),
+    ("H28", "PcpServer", PS, "_sink", "swapped operands of ||", "if (strchr (cp, '/') != NULL || strcmp (cp, \"..\") == 0)", "if (strcmp (cp, \"..\") == 0 || strchr (cp, '/') != NULL)"),
+    ("H29", "PcpServer", PS, "_sink", "j <= 0  ->  j < 1", "if (j <= 0) {", "if (j < 1) {"),
     ("H12", "Dsh", DS, "_thd_command_timeout", "nested ifs merged into one condition",
      "if ((command_timeout > 0) && (th->connect != ((time_t) -1))) {\n        if (th->connect + command_timeout < time (NULL))\n            return (1);\n    }",
      "if ((command_timeout > 0) && (th->connect != ((time_t) -1)) && (th->connect + command_timeout < time (NULL)))\n        return (1);"),
@@ -129,6 +175,17 @@ def apply_edit(text, fname, old, new, regex=False):
     return text[:a] + body + text[b:]
 
 
+def all_modules(reg, unit=None):
+    out = []
+    for u, sp in reg.items():
+        if unit is not None and u != unit:
+            continue
+        for m in [sp["bridge_module"]] + [f["module"] for f in sp["functions"] if "module" in f]:
+            if m not in out:
+                out.append(m)
+    return out
+
+
 def lake_build(targets, timeout=1500):
     t0 = time.time()
     p = subprocess.run(["lake", "build"] + targets, cwd=LEAN, capture_output=True, text=True, timeout=timeout)
@@ -157,7 +214,7 @@ def base_check():
         ok = False
     if changed:
         print("  note: %d Gen/Fn*.lean file(s) differed from the tree under check and were rewritten" % len(changed))
-    mods = [s["bridge_module"] for s in reg.values()] + ["PdshVerif.Props.Bridge"]
+    mods = all_modules(reg) + ["PdshVerif.Props.Bridge"]
     good, errs, dt = lake_build(mods)
     print("  lake build %s: %s (%.0f s)" % (" ".join(m.split(".")[-1] for m in mods), "ok" if good else "FAILED", dt))
     for e in errs[:10]:
@@ -224,7 +281,7 @@ def run_case(case, repo, pristine, expect_break, regex=False):
         changed, failures, _ = c2lean.regen(repo, TARGETS, GEN, [unit])
         differs = bool(changed)
         untrans = [f for (_, f, _) in failures]
-        builds, errs, dt = lake_build([reg[unit]["bridge_module"]])
+        builds, errs, dt = lake_build(all_modules(reg, unit))
     finally:
         with open(path, "w") as f:
             f.write(pristine[cfile])
@@ -246,11 +303,104 @@ def run_case(case, repo, pristine, expect_break, regex=False):
     return good
 
 
+# harmless patches a bridge cannot survive by construction
+ACCEPTED = {"C07-H4": "changes the INTERFACE of the translated functions (the clock becomes a parameter); reported as 'signature changed'"}
+
+
+def sweep(root, ids, expect_break):
+    """apply every <root>/<id>/patch.diff to a scratch copy; for the units whose C file it touches: regenerate, and
+    when the generated Lean differs, rebuild the bridge.  Prints one row per (patch, unit)."""
+    reg = c2lean.load_targets(TARGETS)["units"]
+    allok, rows = True, []
+    for cid in ids:
+        pf = os.path.join(root, cid, "patch.diff")
+        if not os.path.exists(pf):
+            continue
+        diff = open(pf).read()
+        touched = set(re.findall(r"^\+\+\+ b/(\S+)", diff, re.M))
+        units = [u for u, sp in reg.items() if sp["file"] in touched]
+        if not units:
+            continue
+        tmp = tempfile.mkdtemp(prefix="c2lean-sweep-", dir=os.environ.get("TMPDIR", "/var/tmp"))
+        try:
+            repo = scratch_repo(tmp)
+            p = subprocess.run(["patch", "-s", "-p1", "-i", pf], cwd=repo, capture_output=True, text=True)
+            if p.returncode != 0:
+                print("%-8s patch does not apply to the tree under check" % cid)
+                continue
+            for unit in units:
+                gen_path = os.path.join(GEN, "Fn%s.lean" % unit)
+                before = open(gen_path).read()
+                try:
+                    changed, failures, _ = c2lean.regen(repo, TARGETS, GEN, [unit])
+                    # only the targets a check depends on ("props" not empty) count; the others are noted
+                    wired = [f for f in reg[unit]["functions"] if f.get("props")]
+                    unw = [x for x in failures if x[1] not in [f["name"] for f in wired]]
+                    failures = [x for x in failures if x[1] in [f["name"] for f in wired]]
+                    wmods = []
+                    for f in wired:
+                        m = f.get("module", reg[unit]["bridge_module"])
+                        if m not in wmods:
+                            wmods.append(m)
+                    if not changed and not failures:
+                        obs, bad = "generated Lean unchanged", False
+                    elif not wmods:
+                        obs, bad = "no wired target in this unit", False
+                    else:
+                        builds, errs, dt = lake_build(wmods)
+                        if failures:
+                            obs, bad = "P-BROKEN (translation): %s: %s" % (failures[0][1], failures[0][2][:70]), True
+                        elif not builds:
+                            m = re.search(r"(\w+\.lean:\d+)", errs[0]) if errs else None
+                            obs, bad = "P-BROKEN (bridge fails%s)" % (" at " + m.group(1) if m else ""), True
+                        else:
+                            obs, bad = "generated Lean differs, bridge holds", False
+                finally:
+                    with open(gen_path, "w") as f:
+                        f.write(before)
+                if unw:
+                    obs += "   [unwired target %s no longer translates]" % unw[0][1]
+                good = True if expect_break is None else (bad == expect_break)
+                if not good and cid in ACCEPTED:
+                    obs, good = obs + "   (accepted: %s)" % ACCEPTED[cid], True
+                print("%-8s %-10s %s%s" % (cid, unit, obs, "" if good else "   UNEXPECTED"))
+                sys.stdout.flush()
+                rows.append((cid, unit, bad))
+                allok = allok and good
+        finally:
+            shutil.rmtree(tmp, ignore_errors=True)
+    return allok, rows
+
+
 def main():
     ap = argparse.ArgumentParser()
     ap.add_argument("--only")
     ap.add_argument("--skip-base", action="store_true")
+    ap.add_argument("--seeded", action="store_true", help="sweep <root>/seeded/*/patch.diff: which seeded changes does a bridge catch")
+    ap.add_argument("--harmless", action="store_true", help="sweep harmless/*/patch.diff: the bridges must hold")
     a = ap.parse_args()
+    if a.seeded or a.harmless:
+        lock = open(os.path.join(LEAN, ".lock"), "w")
+        fcntl.flock(lock, fcntl.LOCK_EX)
+        ok = True
+        try:
+            for (flag, sub, exp) in ((a.seeded, "seeded", None), (a.harmless, "harmless", False)):
+                if not flag:
+                    continue
+                root = os.path.join(ROOT, sub)
+                ids = sorted(d for d in os.listdir(root) if os.path.isdir(os.path.join(root, d)))
+                if a.only:
+                    ids = [i for i in ids if i in a.only.split(",")]
+                print("sweep of %s/*/patch.diff (%d patches; only those touching a translated file are listed)" % (sub, len(ids)))
+                good, rows = sweep(root, ids, exp)
+                ok = ok and good
+                caught = sorted(set(c for (c, u, bad) in rows if bad))
+                print("%s: %d patches touch a translated file, %d make a bridge fail: %s" % (sub, len(set(c for c, _, _ in rows)), len(caught), " ".join(caught)))
+        finally:
+            c2lean.regen(REPO, TARGETS, GEN)
+            reg = c2lean.load_targets(TARGETS)["units"]
+            lake_build(all_modules(reg))
+        return 0 if ok else 1
     only = set(a.only.split(",")) if a.only else None
     allok = True
     lock = open(os.path.join(LEAN, ".lock"), "w")
@@ -261,7 +411,7 @@ def main():
     tmp = tempfile.mkdtemp(prefix="c2lean-selftest-", dir=os.environ.get("TMPDIR", "/var/tmp"))
     try:
         repo = scratch_repo(tmp)
-        pristine = {f: open(os.path.join(repo, f)).read() for f in (HL, CB, DS, MO, RC)}
+        pristine = {f: open(os.path.join(repo, f)).read() for f in (HL, CB, DS, MO, RC, OP, WC, PS, PC)}
         print("(ii) behavioural mutations: the bridge must fail")
         nm = 0
         for case in MUTATIONS:
@@ -280,7 +430,7 @@ def main():
         shutil.rmtree(tmp, ignore_errors=True)
         c2lean.regen(REPO, TARGETS, GEN)
         reg = c2lean.load_targets(TARGETS)["units"]
-        lake_build([s["bridge_module"] for s in reg.values()])
+        lake_build(all_modules(reg))
     print("selftest: %d mutations, %d harmless rewrites: %s" % (nm, nh, "ALL AS EXPECTED" if allok else "SOME UNEXPECTED"))
     return 0 if allok else 1
 
